@@ -1,16 +1,18 @@
 use slotted_egraphs::*;
-use verif_harness::langs::T;
+use verif_harness::langs::{A, T};
 fn main() {
+    // 1. get_syn_expr with an argument that equals the stored binder name
     let mut eg: EGraph<T> = EGraph::default();
-    let a = eg.add_syn_expr(RecExpr::parse("(f3 $1 $2 $3)").unwrap());
-    let b = eg.add_syn_expr(RecExpr::parse("(f3 $2 $3 $1)").unwrap());
-    eg.union_justified(&a, &b, Some("j".into()));
-    eg.dump();
-    #[cfg(feature = "explanations")]
-    {
-        let p = eg.explain_equivalence(RecExpr::parse("(f3 $1 $2 $3)").unwrap(), RecExpr::parse("(f3 $2 $3 $1)").unwrap());
-        println!("{}", p.to_string(&eg));
-        let p = eg.explain_equivalence(RecExpr::parse("(f3 $1 $2 $3)").unwrap(), RecExpr::parse("(f3 $3 $1 $2)").unwrap());
-        println!("{}", p.to_string(&eg));
-    }
+    let _x = eg.add_syn_expr(RecExpr::parse("(lam $1 (f $1 $2))").unwrap());
+    let y = eg.add_syn_expr(RecExpr::parse("(lam $9 (f $9 $1))").unwrap());
+    println!("class of (lam $9 (f $9 $1)) reads back as: {}", eg.get_syn_expr(&y));
+    // 2. substitution b[x := t] through SynExprSubst: let $2 = (var $1) in (sum $1 (mul (var $1) (var $2)))
+    let mut eg2: EGraph<A> = EGraph::default();
+    let start: RecExpr<A> = RecExpr::parse("(let $2 (sum $1 (mul (var $1) (var $2))) (var $1))").unwrap();
+    let root = eg2.add_expr(start.clone());
+    let rw: Rewrite<A> = Rewrite::new("let-subst", "(let $2 ?a ?c)", "?a[(var $2) := ?c]");
+    apply_rewrites(&mut eg2, &[rw]);
+    let ex = Extractor::<A, AstSize>::new(&eg2, AstSize);
+    println!("start {start}  ->  extracted {}", ex.extract(&root, &eg2));
+    for id in eg2.ids() { for n in eg2.enodes(id) { println!("   {id:?}: {n:?}"); } }
 }
